@@ -124,3 +124,45 @@ Print Assumptions shipped_zone_chain.
 Theorem shipped_zone_timestamp : forall z n W f, In z shipped_zones -> from_timestamp_int z false n = Ok (W, f) -> int_timestamp z W f = n.
 Proof. exact shipped_timestamp. Qed.
 Print Assumptions shipped_zone_timestamp.
+
+(* ---- the MODEL side itself: the hand-written Model/TzConvert.v EQUALS the machine translation of pendulum's own code (Gen/TzGlue.v:
+   src/pendulum/tz/timezone.py and src/pendulum/datetime.py translated from /repo on every run, tools/vlib/gens/g15_tz_glue.py), so a
+   semantic change of the code breaks one of these proofs, not only a source pin.  Bridge (Proofs/TzGlueFacts.v): dt_of W f tz = the datetime
+   object with wall W, fold f, tzinfo tz; res_of (Some tz) r = the object a model result (W', f') denotes in the zone of the timezone object tz;
+   gtz_ok t = a FixedTimezone's table is fixed_zone of its offset; same_obj a b = equal identity tags mean the same object.  The native
+   operations the code calls are the primitives of Model/TzGlueObj.v, each tied to CPython's source by a spec_is_stdlib_* theorem (C02, C11). ---- *)
+From PV Require Import Spec.NativeDT Gen.AddDuration Model.TzGlueObj Gen.TzGlue Proofs.TzGlueFacts.
+
+(* DateTime.in_timezone(tz) on an aware value = in_tz (the conversion rule of this property) *)
+Theorem model_is_code_in_timezone : forall t1 tz W f, gtz_ok t1 -> gtz_ok tz -> same_obj t1 tz ->
+  glue_DateTime_in_timezone (dt_of W f (Some t1)) tz = res_of (Some tz) (in_tz (gtz_is t1 tz) (gz_zone t1) (gz_zone tz) W f).
+Proof. exact glue_in_timezone_aware. Qed.
+Print Assumptions model_is_code_in_timezone.
+
+(* ... on a naive value: fold is set to 1, then tz.convert = create with fold = 1 *)
+Theorem model_is_code_in_timezone_naive : forall tz W f, wall_in_range W = true ->
+  glue_DateTime_in_timezone (dt_of W f None) tz = res_of (Some tz) (create (gz_zone tz) (gz_fixed tz) W true false).
+Proof. exact glue_in_timezone_naive. Qed.
+Print Assumptions model_is_code_in_timezone_naive.
+
+Theorem model_is_code_in_tz : forall d tz, glue_DateTime_in_tz d tz = glue_DateTime_in_timezone d tz.
+Proof. exact glue_in_tz_is_in_timezone. Qed.
+Print Assumptions model_is_code_in_tz.
+
+(* DateTime.astimezone(tz) (native astimezone, then the field-by-field rebuild) = in_tz *)
+Theorem model_is_code_astimezone : forall t1 tz W f, gtz_ok t1 -> gtz_ok tz -> same_obj t1 tz -> wall_in_range W = true ->
+  glue_DateTime_astimezone (dt_of W f (Some t1)) tz = res_of (Some tz) (in_tz (gtz_is t1 tz) (gz_zone t1) (gz_zone tz) W f).
+Proof. exact glue_astimezone. Qed.
+Print Assumptions model_is_code_astimezone.
+
+(* the native astimezone between pendulum timezone objects, with FixedTimezone.utcoffset / fromutc being the translated methods *)
+Theorem model_is_code_native_astimezone : forall t1 t2 W f, gtz_ok t1 -> gtz_ok t2 -> same_obj t1 t2 ->
+  nat_astimezone (dt_of W f (Some t1)) t2 = res_of (Some t2) (in_tz (gtz_is t1 t2) (gz_zone t1) (gz_zone t2) W f).
+Proof. exact nat_astimezone_spec. Qed.
+Print Assumptions model_is_code_native_astimezone.
+
+(* DateTime.int_timestamp of an aware value = int_timestamp *)
+Theorem model_is_code_int_timestamp : forall t W f, gtz_ok t -> same_obj t g_UTC -> wall_in_range W = true ->
+  glue_DateTime_int_timestamp (dt_of W f (Some t)) = Ok (int_timestamp (gz_zone t) W f).
+Proof. exact glue_int_timestamp. Qed.
+Print Assumptions model_is_code_int_timestamp.
